@@ -404,6 +404,13 @@ class Harness:
             r = self.ev_ack(ev[1], ev[2])
         elif k == "csend":
             r = self.ev_client_send(ev[1])
+        elif k == "peer_zero":
+            # the peer numbers its packets from 0 (hippolyzer's own endpoints do) instead of 1
+            if self.peer or self.delayed:
+                return None
+            self.peer_next = 0
+            self.flags.add("peer_ids_from_zero")
+            r = []
         elif k == "csend_stale":
             r = self.ev_client_send(ev[1], stale_id=True)
         elif k == "packr":
@@ -517,7 +524,8 @@ EV = st.one_of(
     st.tuples(st.just("tick"), st.sampled_from([3.1, 1.0, 3.0, 7.0])),
     st.tuples(st.just("noise"), st.sampled_from(["malformed", "banned", "unknown_host"])),
 )
-WALK = st.tuples(st.booleans(), st.lists(EV, min_size=3, max_size=150))
+WALK = st.tuples(st.booleans(), st.lists(EV, min_size=3, max_size=150), st.integers(0, 2)).map(
+    lambda t: (t[0], ([("peer_zero",)] if t[2] == 0 else []) + list(t[1])))
 
 
 def run_shard(ctx, shard):
